@@ -101,8 +101,20 @@ fn gen_set(rng: &mut Rng) -> (Maps, Category) {
 
 // ------------------------------------------------------------------------------------------------ real code wrappers
 
-fn write_all(q: &Q) -> Result<anyhow::Result<Vec<u8>>, PanicInfo> { guard(|| { let mut v = vec![]; quill::enigma_file::write_all(q, &mut v)?; Ok(v) }) }
-fn write_one(q: &Q, file: &str) -> Result<anyhow::Result<Vec<u8>>, PanicInfo> { guard(|| { let mut v = vec![]; quill::enigma_file::write_one(q, file, &mut v)?; Ok(v) }) }
+/// Every third text (chosen by its content, so that replays agree) is what arrives in a writer that accepts only a few bytes per
+/// `write` call (legal for any `io::Write`; a `Vec<u8>` takes everything and hides a `write` where `write_all` is needed): the text
+/// then goes through the same comparisons as any other (other insertion orders, write_one pieces, directory files, read back).
+static SHORT_WRITE_TEXTS: std::sync::atomic::AtomicU64 = std::sync::atomic::AtomicU64::new(0);
+fn via_short_writes(v: Vec<u8>, again: impl FnOnce(&mut common::io::ChunkedWriter) -> anyhow::Result<()>) -> anyhow::Result<Vec<u8>> {
+    let h = common::rng::fnv(&v);
+    if h % 3 != 0 { return Ok(v); }
+    let mut w = common::io::ChunkedWriter::new(h, 1 + (h % 29) as usize);
+    again(&mut w)?;
+    if w.short_writes > 0 { SHORT_WRITE_TEXTS.fetch_add(1, std::sync::atomic::Ordering::Relaxed); }
+    Ok(w.data)
+}
+fn write_all(q: &Q) -> Result<anyhow::Result<Vec<u8>>, PanicInfo> { guard(|| { let mut v = vec![]; quill::enigma_file::write_all(q, &mut v)?; via_short_writes(v, |w| quill::enigma_file::write_all(q, w)) }) }
+fn write_one(q: &Q, file: &str) -> Result<anyhow::Result<Vec<u8>>, PanicInfo> { guard(|| { let mut v = vec![]; quill::enigma_file::write_one(q, file, &mut v)?; via_short_writes(v, |w| quill::enigma_file::write_one(q, file, w)) }) }
 fn fresh(m: &Maps) -> anyhow::Result<Q> { Ok(Mappings { info: quill::tree::mappings::MappingInfo { namespaces: namespaces_to_quill::<2, ()>(m)? }, classes: Default::default(), javadoc: None }) }
 fn read_texts(m: &Maps, texts: &[&[u8]]) -> Result<anyhow::Result<Q>, PanicInfo> {
     guard(|| { let mut q = fresh(m)?; for t in texts { if common::rng::fnv(t) % 3 == 0 { quill::enigma_file::read_into(common::io::ChunkedReader::new(t, common::rng::fnv(t), 1 + t.len() % 11), &mut q)?; } else { quill::enigma_file::read_into(*t, &mut q)?; } } Ok(q) })
@@ -544,6 +556,7 @@ fn main() {
         meta.oblige("judged sets with nesting depth >= 17 (chains of inner classes)", rep.get("max.nesting_depth") >= 17 && rep.get("class.nesting_depth_17_or_more") >= 20);
         meta.oblige("constructors named <init> in the target namespace", rep.get("method.target_name_is_init") > 0);
         meta.oblige("directories with >= 5 files and depth >= 3", rep.get("max.files_in_directory") >= 5 && rep.get("max.directory_depth") >= 3);
+        meta.oblige("texts written through write_all / write_one into a writer that accepts only a few bytes per call (>= 500, short writes happened)", SHORT_WRITE_TEXTS.load(std::sync::atomic::Ordering::Relaxed) >= 500);
         meta.oblige("directory writes over older, longer files at the same paths (>= 50)", rep.get("directory.writes_over_older_longer_files") >= 50);
         meta.oblige("stream, write_one and directory formats all exercised", rep.get("stream.writes") > 0 && rep.get("write_one.calls") > 0 && rep.get("directory.writes") > 0);
         meta.oblige("at most 10% of the cases fall outside the judged domain by accident", rep.get("not_judged.total") * 10 <= rep.evaluations);
